@@ -6,7 +6,10 @@ import (
 	"bufio"
 	"fmt"
 	"os"
+	"runtime"
 	"strconv"
+	"sync"
+	"time"
 	"strings"
 	"testing"
 	"testing/synctest"
@@ -40,21 +43,71 @@ func TestSim(t *testing.T) {
 	defer f.Close()
 	bw := bufio.NewWriterSize(f, 1<<20)
 	defer bw.Flush()
+	skip, _ := strconv.Atoi(os.Getenv("SIM_SKIP"))
+	limit := 20 * time.Second
+	if v := os.Getenv("SIM_WATCHDOG_S"); v != "" {
+		n, _ := strconv.Atoi(v)
+		limit = time.Duration(n) * time.Second
+	}
+	idx := 0
+	guarded := func(sc *Scenario, d Driver) {
+		idx++
+		if idx <= skip {
+			return
+		}
+		// watchdog (real time, outside the bubble): a goroutine parked on a mutex is not
+		// "durably blocked", so a lock-level deadlock in the library would make the bubble
+		// spin forever; report it as a hang and leave the process
+		timer := time.AfterFunc(limit, func() {
+			curMu.Lock()
+			for _, l := range curLines {
+				bw.WriteString(l)
+				bw.WriteByte('\n')
+			}
+			buf := make([]byte, 1<<18)
+			n := runtime.Stack(buf, true)
+			stacks := strings.ReplaceAll(string(buf[:n]), "\n", " | ")
+			if len(stacks) > 6000 {
+				stacks = stacks[:6000]
+			}
+			fmt.Fprintf(bw, "X %s hang %s\n", sc.Name, stacks)
+			bw.Flush()
+			f.Close()
+			os.Exit(3)
+		})
+		runScenario(t, sc, d, bw)
+		timer.Stop()
+	}
 	for _, sc := range scs {
-		runScenario(t, sc, nil, bw)
+		guarded(sc, nil)
 	}
 	if fam != "" {
 		seed, _ := strconv.ParseInt(os.Getenv("SIM_SEED"), 10, 64)
 		count, _ := strconv.Atoi(os.Getenv("SIM_COUNT"))
 		for _, d := range Families(fam, seed, count) {
-			runScenario(t, &Scenario{Name: d.Name(), Cfg: d.Config()}, d, bw)
+			guarded(&Scenario{Name: d.Name(), Cfg: d.Config()}, d)
 		}
 	}
 }
 
+var (
+	curMu    sync.Mutex
+	curLines []string
+)
+
 func runScenario(t *testing.T, sc *Scenario, drv Driver, bw *bufio.Writer) {
 	fmt.Fprintf(bw, "S %s %s\n", sc.Name, sc.Cfg.String())
+	bw.Flush()
 	var lines []string
+	curMu.Lock()
+	curLines = nil
+	curMu.Unlock()
+	addLine := func(l string) {
+		lines = append(lines, l)
+		curMu.Lock()
+		curLines = append(curLines, l)
+		curMu.Unlock()
+	}
 	status := "ok"
 	func() {
 		defer func() {
@@ -68,7 +121,7 @@ func runScenario(t *testing.T, sc *Scenario, drv Driver, bw *bufio.Writer) {
 				flush := func(n int) {
 					synctest.Wait()
 					for _, e := range w.drain() {
-						lines = append(lines, fmt.Sprintf("E %d %s", n, e))
+						addLine(fmt.Sprintf("E %d %s", n, e))
 					}
 				}
 				n := 0
@@ -85,14 +138,14 @@ func runScenario(t *testing.T, sc *Scenario, drv Driver, bw *bufio.Writer) {
 						}
 						a = sc.Actions[i]
 					}
-					lines = append(lines, fmt.Sprintf("A %d %s", i, a))
+					addLine(fmt.Sprintf("A %d %s", i, a))
 					w.Do(a)
 					flush(i)
 					w.probe(false)
 					flush(i)
 					n = i + 1
 				}
-				lines = append(lines, fmt.Sprintf("A %d teardown", n))
+				addLine(fmt.Sprintf("A %d teardown", n))
 				w.Teardown()
 				flush(n)
 				w.probe(true)
